@@ -7,6 +7,7 @@ import (
 	"math/rand"
 	"runtime"
 	"sync"
+	"sync/atomic"
 	"time"
 
 	"github.com/pingcap/kvproto/pkg/eraftpb"
@@ -97,9 +98,12 @@ type opRec struct {
 	steps     []operator.OpStep
 	stores    map[uint64]bool
 	executed  []bool
+	seen      []bool // executed, as of the last heartbeat of the region
 	submitted bool
 	last      operator.OpStatus
 	running   bool
+	created   time.Time // virtual time of construction
+	started   time.Time // virtual time of the event in which it was started
 	unsound   bool // a faithful store refused one of its commands although nothing foreign happened (C08 matter)
 	ambiguous bool // a foreign change hit between an executed step and the heartbeat that reports it
 	unseen    bool
@@ -109,7 +113,17 @@ type opRec struct {
 // the last one the store executed (pd only sends the command of its current
 // step, so it is past everything before an executed step) that was neither
 // executed nor is vacuous.
-func (o *opRec) next(r *simkit.Region) int {
+func (o *opRec) next(r *simkit.Region) int { return nextOf(o.steps, o.executed, r) }
+
+// nextSeen: the same, as far as pd can tell from the last heartbeat (steps the
+// store executed since then are not known to pd yet; a push re-sends their command).
+func (o *opRec) nextSeen(view *simkit.Region) int { return nextOf(o.steps, o.seen, view) }
+
+func nextOf(steps []operator.OpStep, executed []bool, r *simkit.Region) int {
+	o := struct {
+		steps    []operator.OpStep
+		executed []bool
+	}{steps, executed}
 	i := 0
 	for k, done := range o.executed {
 		if done {
@@ -147,6 +161,7 @@ type world struct {
 	pool   [][]*opRec
 	start  time.Time
 	step   int
+	vclock int64 // virtual time, unix nanoseconds
 
 	nonTrivial bool
 	classes    map[string]bool
@@ -172,6 +187,11 @@ func newWorld(c *Case, info *vkit.Info, strict bool) *world {
 	w := &world{c: c, info: info, strict: strict, byID: map[uint64]*regState{}, byOp: map[*operator.Operator]*opRec{},
 		classes: map[string]bool{}, stream: map[uint64]*recStream{}, rec: &recorder{}, start: time.Now()}
 	rand.Seed(c.Seed) // waiting operators are promoted from buckets picked with math/rand
+	// virtual clock for everything timed in the controller and the operators (expire, timeout, push intervals);
+	// it only moves in "clock" events. The record TTL cache (pkg/cache) keeps the real clock: records never expire in a case.
+	atomic.StoreInt64(&w.vclock, time.Date(2030, 1, 1, 0, 0, 0, 0, time.UTC).UnixNano())
+	operator.SetVerifClock(w.now, nil)
+	schedule.SetVerifClock(w.now, nil)
 	w.ctx, w.cancel = context.WithCancel(context.Background())
 	w.mc, w.mcStop = simkit.Build(w.ctx, c.Cluster)
 	for _, id := range c.Cluster.StoreIDs() {
@@ -201,6 +221,23 @@ func (w *world) close() {
 	w.hb.Close()
 	w.mcStop()
 	w.cancel()
+	operator.SetVerifClock(nil, nil)
+	schedule.SetVerifClock(nil, nil)
+}
+
+func (w *world) now() time.Time { return time.Unix(0, atomic.LoadInt64(&w.vclock)) }
+
+// waitTime: how long an operator may run (operator.go: SlowOperatorWaitTime for operators marked OpRegion, else FastOperatorWaitTime).
+func waitTime(o *opRec) time.Duration {
+	if o.op.Kind()&operator.OpRegion != 0 {
+		return operator.SlowOperatorWaitTime
+	}
+	return operator.FastOperatorWaitTime
+}
+
+// overdue: a STARTED operator that has been running for its wait time or longer.
+func (w *world) overdue(o *opRec) bool {
+	return !o.started.IsZero() && w.now().Sub(o.started) >= waitTime(o)
 }
 
 // barrier: every message handed to SendMsg so far has been passed to a stream's
@@ -234,8 +271,6 @@ func (w *world) barrier() bool {
 		return false
 	}
 }
-
-func (w *world) slow() bool { return time.Since(w.start) > 1500*time.Millisecond }
 
 func (w *world) runningRec(rs *regState) *opRec {
 	if op := w.oc.GetOperator(rs.sim.ID); op != nil {
@@ -337,7 +372,14 @@ func (w *world) event(op Op) error {
 		}
 		rs.inbox = nil
 	case "push":
+		w.class("event:push")
 		w.oc.PushOperators()
+	case "clock":
+		d := clockSteps[mod(op.D, len(clockSteps))]
+		atomic.AddInt64(&w.vclock, int64(d))
+		w.class("event:clock+" + d.String())
+	case "influence":
+		err = w.evInfluence()
 	case "foreign":
 		w.evForeign(rs, op.F)
 	default:
@@ -374,8 +416,12 @@ func (w *world) evBuild(rs *regState, q *BuildReq) error {
 		}
 		// pos: the view may lag behind the store; everything after the view's heartbeat is "after the snapshot"
 		o := &opRec{idx: len(w.ops), op: op, rs: r, ep: epochOf(r.view), pos: r.viewLen, kind: q.Kind,
-			steps: stepsOf(op), stores: map[uint64]bool{}, last: operator.CREATED}
+			steps: stepsOf(op), stores: map[uint64]bool{}, last: operator.CREATED, created: w.now()}
+		if !op.GetCreateTime().Equal(o.created) {
+			return w.errf("%s: create time %v, the clock says %v", o, op.GetCreateTime(), o.created)
+		}
 		o.executed = make([]bool, len(o.steps))
+		o.seen = make([]bool, len(o.steps))
 		for _, st := range o.steps {
 			stepStores(st, o.stores)
 		}
@@ -554,6 +600,26 @@ func (w *world) evRemove(ev *evCtx, rs *regState, which int) error {
 		return w.errf("%s removed while STARTED, must be CANCELED", cur)
 	}
 	w.class("event:remove-running")
+	return nil
+}
+
+// evInfluence: what every scheduler tick does. GetOpInfluence runs CheckTimeout on
+// every running operator: one that has been running for its wait time becomes
+// TIMEOUT (it stays in the running set until the next dispatch); nothing else changes.
+func (w *world) evInfluence() error {
+	var due []*opRec
+	for _, o := range w.ops {
+		if o.op.Status() == operator.STARTED && w.overdue(o) {
+			due = append(due, o)
+		}
+	}
+	w.class("event:get-op-influence")
+	w.oc.GetOpInfluence(w.mc)
+	for _, o := range due {
+		if o.op.Status() != operator.TIMEOUT {
+			return w.errf("%s has been running for %v (wait time %v) and GetOpInfluence checked it: want TIMEOUT", o, w.now().Sub(o.started), waitTime(o))
+		}
+	}
 	return nil
 }
 
@@ -775,6 +841,7 @@ type judge struct {
 	mustCancel string
 	excluded   bool
 	leader     bool
+	overdue    bool // it has been running for its wait time: Check turns it into TIMEOUT unless all steps are finished
 }
 
 // leaveTrigger: exactly the situations in which ChangePeerV2Leave.ConfVerChanged
@@ -850,6 +917,7 @@ func (w *world) heartbeat(ev *evCtx, rs *regState) {
 	for _, o := range w.ops {
 		if o.rs == rs {
 			o.unseen = false
+			copy(o.seen, o.executed)
 		}
 	}
 	w.class("event:heartbeat")
@@ -860,7 +928,8 @@ func (w *world) preJudge(x *opRec, rs *regState) *judge {
 	r := rs.sim
 	j := &judge{x: x, foreign: x.foreignSince(), next: x.next(r), leader: r.Leader != 0}
 	j.allDone = j.next == len(x.steps)
-	if x.unsound {
+	j.overdue = w.overdue(x)
+	if x.unsound || j.overdue {
 		return j
 	}
 	under, over := leaveTrigger(x, r)
@@ -939,6 +1008,17 @@ func (w *world) postJudge(ev *evCtx) error {
 	st := x.op.Status()
 	running := w.runningRec(x.rs) == x
 	switch {
+	case j.overdue:
+		// Dispatch first lets the operator look at the region: finished => SUCCESS, else overdue => TIMEOUT; either way it leaves
+		if (st != operator.TIMEOUT && st != operator.SUCCESS) || running {
+			return w.errf("%s has been running for %v (wait time %v): the heartbeat must end it with TIMEOUT (or SUCCESS)", x, w.now().Sub(x.started), waitTime(x))
+		}
+		if !x.unsound && !j.foreign {
+			if want := map[bool]operator.OpStatus{true: operator.SUCCESS, false: operator.TIMEOUT}[j.allDone]; st != want {
+				return w.errf("%s: overdue, all steps executed = %v, nothing foreign: want %s", x, j.allDone, operator.OpStatusToString(want))
+			}
+		}
+		return nil
 	case x.unsound:
 		return nil
 	case j.excluded:
@@ -1018,16 +1098,16 @@ func (w *world) collect(ev *evCtx) error {
 		if o == nil {
 			return w.errf("store %d received a command for region %d which has no running operator", d.store, v.ID)
 		}
-		n := o.next(v)
+		n := o.nextSeen(v)
 		idx := -1
-		if n < len(o.steps) && matchStep(m, o.steps[n]) {
-			idx = n
-		} else {
-			for i, st := range o.steps {
-				if !o.executed[i] && matchStep(m, st) {
-					idx = i
-					break
-				}
+		for i := n; i < len(o.steps) && idx < 0; i++ {
+			if matchStep(m, o.steps[i]) {
+				idx = i
+			}
+		}
+		for i := 0; i < n && i < len(o.steps) && idx < 0; i++ {
+			if matchStep(m, o.steps[i]) {
+				idx = i
 			}
 		}
 		if !o.unsound && !o.foreignSince() && idx != n {
@@ -1084,18 +1164,34 @@ func (w *world) sweep(ev *evCtx) error {
 	for _, o := range w.ops {
 		cur := o.op.Status()
 		running := w.runningRec(o.rs) == o
-		if cur == operator.TIMEOUT || cur == operator.EXPIRED {
-			if w.slow() {
-				return errInconclusive
-			}
-			return w.errf("%s: status %s after %v of wall-clock time", o, operator.OpStatusToString(cur), time.Since(w.start))
-		}
 		if cur != o.last {
 			if !validChange(o.last, cur, o.op.HasStarted()) {
 				return w.errf("%s: observed status change %s -> %s", o, operator.OpStatusToString(o.last), operator.OpStatusToString(cur))
 			}
 			if !o.submitted {
 				return w.errf("%s changed status without having been handed to the controller", o)
+			}
+			now := w.now()
+			if o.last == operator.CREATED && o.op.HasStarted() {
+				o.started = now
+				if !o.op.GetStartTime().Equal(now) {
+					return w.errf("%s: start time %v, the clock says %v", o, o.op.GetStartTime(), now)
+				}
+				if age := now.Sub(o.created); age >= operator.OperatorExpireTime {
+					return w.errf("%s was started %v after it was created (expire time %v)", o, age, operator.OperatorExpireTime)
+				}
+			}
+			switch cur {
+			case operator.EXPIRED:
+				if age := now.Sub(o.created); age < operator.OperatorExpireTime {
+					return w.errf("%s EXPIRED %v after it was created (expire time %v)", o, age, operator.OperatorExpireTime)
+				}
+				w.class("operator:expired")
+			case operator.TIMEOUT:
+				if !w.overdue(o) {
+					return w.errf("%s TIMEOUT %v after it was started (wait time %v)", o, now.Sub(o.started), waitTime(o))
+				}
+				w.class("operator:timeout")
 			}
 			changes = append(changes, change{o, o.last, cur})
 			if o.last == operator.CREATED && o.op.HasStarted() {
@@ -1110,13 +1206,16 @@ func (w *world) sweep(ev *evCtx) error {
 				return w.errf("%s left the running set in status %s", o, operator.OpStatusToString(cur))
 			}
 			if cur == o.last && operator.IsEndStatus(cur) {
-				endedNow[o.rs] = append(endedNow[o.rs], o) // ended earlier (e.g. SUCCESS inside AddOperator), buried now
+				endedNow[o.rs] = append(endedNow[o.rs], o) // ended earlier (SUCCESS / TIMEOUT reached inside a Check), leaves and is buried now
+				if cur == operator.TIMEOUT {
+					w.class("operator:timeout-left-running-set")
+				}
 			}
 		}
 		if cur == operator.STARTED && !running {
 			return w.errf("%s is STARTED but is not the operator GetOperator returns for region %d", o, o.rs.sim.ID)
 		}
-		if running && cur != operator.STARTED && cur != operator.SUCCESS {
+		if running && cur != operator.STARTED && cur != operator.SUCCESS && cur != operator.TIMEOUT {
 			return w.errf("%s is in the running set with status %s", o, operator.OpStatusToString(cur))
 		}
 	}
